@@ -2,6 +2,7 @@ import OrdModel.Proofs.IndexInsnumLists
 import OrdModel.Proofs.IndexInsnumJubilee
 import OrdModel.Index.Run
 import OrdModel.Proofs.IndexLiftInsNumChain
+import OrdModel.Proofs.IndexLiftInsValid
 /-
 C05 — inscription numbers, sequence numbers and ids are dense, unique and consistent; jubilee.
 Model: `updateInscriptionLocation` (OrdModel/Index/Inscriptions.lean) ↔
@@ -173,6 +174,15 @@ theorem c05_ids_reachable (cfg : Cfg) (chain : List Block) (st : State) (evs : L
     ∀ e ∈ st.entries, e.id.txid ∈ Sched.chainTxids chain := by
   intro e he
   exact (InsLift.run_n5 cfg chain st evs hd h).prov e.id (List.mem_map_of_mem he)
+
+/-- **Every valid chain**: C16's chain-validity predicate implies distinct txids, so the numbering
+invariant holds after every consensus-valid chain. -/
+theorem c05_valid_chain (cfg : Cfg) (chain : List Block) (st : State) (evs : List Event)
+    (hv : Valid.validChain chain = true) (h : run cfg chain = .ok (st, evs)) :
+    Inv5 st.entries st.id2seq st.num2seq st.blessed st.cursed ∧
+    (∀ e ∈ st.entries, cfg.jubileeHeight ≤ e.height → 0 ≤ e.number) :=
+  let hd := (Sched.ChainCond.of_validChain chain hv).txidsDistinct
+  ⟨c05_reachable cfg chain st evs hd h, (c05_jubilee_reachable cfg chain st evs hd h).2⟩
 
 /-! non-vacuity of the lift: a pushnum (cursed) envelope revealed below the jubilee height gets
 number −1, the same kind of envelope revealed at the jubilee height is vindicated and gets 0 -/
